@@ -124,6 +124,8 @@ class C09(Check):
             if n is None or pr.get("nopoints"):
                 continue
             step = 1 if (th or pr["light"]) else 3
+            if not th and pr.get("t") in ("é", "7"):
+                step = 2   # quick: every second allocation point for two of the four short content families (thorough: every point)
             for p in range(0, n, step):
                 for kind in (1, 2):
                     yield (i, "at", kind, p, "poison")
@@ -265,7 +267,7 @@ def main(tier):
     base = [r.get("allocs") if r and r.get("class") == "ok" else None for r in res]
     chk = C09(progs, base)
     chk.rule = ("%d programs = ordered producer pairs over 7 content families (three characters, one character, empty; ASCII, digits, two-byte characters) x {equal, one character different} x {plain, equal string created-dropped-collected first}; "
-                "schedules: never, every x {nursery, full, natural} in two allocator modes, every (quick: every 3rd for the main family) allocation point x {nursery, full}; "
+                "schedules: never, every x {nursery, full, natural} in two allocator modes, every (quick: every 3rd for the main family, every 2nd for two of the short families) allocation point x {nursery, full}; "
                 "each run ends with a full collection + intern-table audit. non-trivial = run with at least one forced collection besides the final one" % len(progs))
     merged = explore(chk, tier, cap_s=(1500 if tier == "thorough" else 200))
     return report.finish(chk, tier, merged, t0, coverage_extra={"programs": len(progs), "allocation_points_total": sum(b or 0 for b in base)})
